@@ -13,7 +13,7 @@ EXPLANATION = (
     "script version, stacks), reading bytes from its temporary script through a local iterator. R16.5 the operation step treats an "
     "exec'd operation exactly like a script operation: the `local_script` parameter is used only to select where bytes are read from, "
     "is passed on unchanged, and guards the one iterator store that would dangle (shared with C15 R15.9) - any other dependence on it "
-    "makes exec behave differently from the script. Token parsing of the exec arguments and equality of the resulting state with a "
+    "makes exec behave differently from the script. R16.3 also: the stepping loop of eval is left early only over the failure edge of the step's result (or in a handler of a try around the step): no other test, e.g. of the session being finished, can stop exec. Token parsing of the exec arguments and equality of the resulting state with a "
     "reference are not decided.")
 TRUSTED = ["clang 14 parser/Sema/CFG", "/verif extractor, write-set and exception engines"]
 ASSUMPTIONS = ["the write-set is a may-analysis (path-insensitive): a field it does not contain is never written"]
